@@ -12,4 +12,5 @@ CONSTANTS
   Locs <- LocLocal
   FailSet <- FailNone
   SysVals <- SysBoth
+  TestReqs <- NoTests
 INVARIANTS TypeOK StoredValid Decided
